@@ -864,3 +864,92 @@ Example split_nonuniform_below_lost :
   split_nonuniform (map VInt [1; 3]) (TNode [(VInt 0, ex_leaf 10); (VInt 1, ex_leaf 11); (VInt 4, ex_leaf 14)]) =
     Some (TNode [(VInt 1, TNode [(VInt 1, ex_leaf 11)]); (VInt 3, TNode [(VInt 4, ex_leaf 14)])]).
 Proof. vm_compute. reflexivity. Qed.
+
+(* ------------------------------------------------------------ swizzleRanks *)
+(* a depth-n trie: every level a non-empty sorted integer fiber, leaves at depth exactly n *)
+Fixpoint wft (n : nat) (t : trie) : Prop :=
+  match n with
+  | O => exists v, t = TLeaf v
+  | S n' => exists l, t = TNode l /\ int_sorted l /\ l <> [] /\ Forall (fun ct => wft n' (snd ct)) l
+  end.
+
+Definition tins (t : trie) (pv : list value * value) : trie := tinsert (fst pv) (snd pv) t.
+
+Lemma tbuild_eq ps : tbuild ps = fold_left tins ps (TNode []).
+Proof. reflexivity. Qed.
+
+Lemma wft_paths_nonempty n : forall t, wft n t -> paths t <> [].
+Proof.
+  induction n as [|n IH]; intros t H; cbn [wft] in H.
+  - destruct H as [v ->]. discriminate.
+  - destruct H as [l [-> [_ [Hne Hc]]]]. destruct l as [|ct l]; [congruence|]. inversion Hc as [|? ? H1 _]; subst.
+    cbn [paths flat_map]. specialize (IH _ H1). destruct (paths (snd ct)); [congruence|]. discriminate.
+Qed.
+
+Lemma wft_paths_length n : forall t, wft n t -> Forall (fun pv => length (fst pv) = n) (paths t).
+Proof.
+  induction n as [|n IH]; intros t H; cbn [wft] in H.
+  - destruct H as [v ->]. repeat constructor.
+  - destruct H as [l [-> [_ [_ Hc]]]]. cbn [paths]. rewrite Forall_forall. intros pv Hpv. apply in_flat_map in Hpv.
+    destruct Hpv as [ct [Hct Hpv]]. apply in_map_iff in Hpv. destruct Hpv as [pv' [<- Hpv']]. cbn [fst length].
+    rewrite Forall_forall in Hc. specialize (IH _ (Hc _ Hct)). rewrite Forall_forall in IH. rewrite (IH _ Hpv'). reflexivity.
+Qed.
+
+Lemma tins_cons l c p v :
+  tins (TNode l) (c :: p, v) = TNode (ainsert c (tinsert p v (match alookup c l with Some s => s | None => TNode [] end)) l).
+Proof. reflexivity. Qed.
+
+Lemma tins_prefix c pre : Forall int_key pre -> (forall x, In x pre -> kz x < c) -> forall ps s0,
+  fold_left tins (map (fun pv => (VInt c :: fst pv, snd pv)) ps) (TNode (pre ++ [(VInt c, s0)])) =
+  TNode (pre ++ [(VInt c, fold_left tins ps s0)]).
+Proof.
+  intros Hk Hlt. induction ps as [|pv ps IH]; intros s0; [reflexivity|]. cbn [map fold_left].
+  rewrite tins_cons. rewrite alookup_last by assumption. rewrite ainsert_last by assumption.
+  rewrite IH. reflexivity.
+Qed.
+
+Lemma tbuild_paths n : forall t, wft n t -> fold_left tins (paths t) (TNode []) = t.
+Proof.
+  induction n as [|n IH]; intros t H; cbn [wft] in H.
+  - destruct H as [v ->]. reflexivity.
+  - destruct H as [l [-> [Hs [_ Hc]]]]. cbn [paths].
+    enough (G : forall pre, int_sorted (pre ++ l) ->
+                fold_left tins (flat_map (fun ct => map (fun pv => (fst ct :: fst pv, snd pv)) (paths (snd ct))) l) (TNode pre) = TNode (pre ++ l))
+      by (apply (G []); exact Hs).
+    clear Hs. induction Hc as [|ct l Hct Hc IHl]; intros pre Hs; cbn [flat_map fold_left]; [rewrite app_nil_r; reflexivity|].
+    rewrite fold_left_app. pose proof Hs as H0. apply int_sorted_app in H0. destruct H0 as [[Hk _] [Hl Hcl]].
+    apply int_sorted_cons_inv in Hl. destruct Hl as [[c Hc0] _].
+    assert (Hlt : forall x, In x pre -> kz x < c).
+    { intros x Hx. specialize (Hcl x ct Hx (or_introl eq_refl)). unfold kz in Hcl at 2. rewrite Hc0 in Hcl. exact Hcl. }
+    destruct ct as [c' s]. cbn [fst snd] in *. subst c'.
+    pose proof (wft_paths_nonempty n s Hct) as Hne. pose proof (IH s Hct) as IHs.
+    destruct (paths s) as [|pv ps]; [congruence|]. cbn [map fold_left].
+    rewrite tins_cons. rewrite alookup_above by assumption. rewrite ainsert_above by assumption.
+    rewrite tins_prefix by assumption. cbn [fold_left] in IHs. change (tinsert (fst pv) (snd pv) (TNode [])) with (tins (TNode []) pv). rewrite IHs.
+    rewrite IHl; [rewrite <- app_assoc; reflexivity|rewrite <- app_assoc; exact Hs].
+Qed.
+
+Lemma nth_perm_id {A} (p : list A) d : nth_perm (seq 0 (length p)) p d = p.
+Proof.
+  unfold nth_perm. induction p as [|a p IH]; [reflexivity|]. cbn [length seq map nth]. f_equal.
+  rewrite <- seq_shift, map_map. exact IH.
+Qed.
+
+(* (g, identity order) swizzling a well-formed depth-n trie by the identity rank order is the identity *)
+Theorem tswizzle_id n t : wft n t \/ t = TNode [] -> tswizzle (seq 0 n) t = t.
+Proof.
+  intros [H| ->]; [|reflexivity]. unfold tswizzle. rewrite tbuild_eq.
+  rewrite <- (tbuild_paths n t H) at 2. f_equal.
+  pose proof (wft_paths_length n t H) as Hlen. induction Hlen as [|pv ps Hpv _ IH]; [reflexivity|].
+  cbn [map]. rewrite IH. f_equal. rewrite <- Hpv, nth_perm_id. destruct pv; reflexivity.
+Qed.
+
+Example ex_trie2_wft : wft 2 (TNode ex_trie2).
+Proof.
+  eexists. split; [reflexivity|]. split; [prove_int_sorted|]. split; [discriminate|].
+  repeat constructor; cbn [snd]; (eexists; split; [reflexivity|]; split; [prove_int_sorted|]; split; [discriminate|]);
+    repeat constructor; eexists; reflexivity.
+Qed.
+
+Example tswizzle_id_ex : tswizzle (seq 0 2) (TNode ex_trie2) = TNode ex_trie2.
+Proof. apply tswizzle_id. left. exact ex_trie2_wft. Qed.
